@@ -184,33 +184,28 @@ def jobs(tier):
 
     # ------------------------------------------------------------------ dnf.c (bounded)
     D = "dnf_h.c"
-    DNF_FNS = ["dnfAtom", "dnfNotAtom", "dnfAnd", "dnfOr", "dnfNot", "dnfImplies", "dnfEqual", "dnfIsTrue", "dnfIsFalse",
-               "dnfAndMerge", "dnfOrMerge", "dnfAndImplies", "dnfAndImpliesNegation", "dnfAndCancelNegation", "dnfAndNot"]
-
-    def dn_unw(entry, orl, litl=5):
-        us = []
-        for fn, n in (("dnfOrMerge", 3), ("dnfNot", 1), ("dnfOr", 2), ("dnfAnd", 2), ("dnfOrFree", 1), ("dnfImplies", 2),
-                      ("dnfOrCopy", 1), ("dnfOrNew", 1), ("dn_eval", 2)):
-            us += ["%s.%d:%d" % (fn, i, orl) for i in range(n)]
-        for fn, n in (("dnfAndMerge", 4), ("dnfAndCancelNegation", 4), ("dnfAndImpliesNegation", 1), ("dnfAndImplies", 1),
-                      ("dnfAndCopy", 1), ("dnfAndNot", 1), ("dnfAndNew", 1)):
-            us += ["%s.%d:%d" % (fn, i, litl) for i in range(n)]
-        us += ["%s.%d:%d" % (entry, i, 6) for i in range(12)]
-        # dn_eval.0 is the literal loop (inner loops are numbered first)
-        us = [u if not u.startswith("dn_eval.0:") else "dn_eval.0:%d" % litl for u in us]
-        return ["--unwindset", ",".join(us), "--unwinding-assertions"]
     DCHK = ["--no-standard-checks", "--no-malloc-may-fail", "--pointer-check", "--div-by-zero-check"]   # struct-hack arrays: no --bounds-check
-    DIN = ["v", "la", "ln", "nA", "nB", "nR"]
-    J("dnf.constants", D, "h_dnf_consts", DNF_FNS, ["v", "at", "neg"], cls="B", bound="<=3 atoms, one literal", native=True,
-      checks=DCHK, cbmc=dn_unw("h_dnf_consts", 6))
-    for o1 in (0, 1):
-        for o2 in (0, 1):
-            for o3 in (0, 1):
-                nm = "".join("ao"[o] for o in (o1, o2, o3))
-                J("dnf.formula.%s" % nm, D, "h_dnf_formula", DNF_FNS, DIN, cls="B", native=True, checks=DCHK,
-                  bound="<=3 atoms; R = [not](L1 %s L2) %s [not](L3 %s L4), literals symbolic" % (("and", "or")[o1], ("and", "or")[o3], ("and", "or")[o2]),
-                  defs=["-DDN_OP1=%d" % o1, "-DDN_OP2=%d" % o2, "-DDN_OP3=%d" % o3], cbmc=dn_unw("h_dnf_formula", 6),
-                  timeout=900 if thorough else 120)
-    J("canary.dnf.formula", D, "h_dnf_formula", DNF_FNS, DIN, cls="B", kind="canary", checks=DCHK,
-      defs=["-DCANARY_dnf_formula", "-DDN_OP1=1", "-DDN_OP2=1", "-DDN_OP3=0"], cbmc=dn_unw("h_dnf_formula", 6))
+    DUNW = ["--unwindset", "dn_guards_intact.0:65", "--unwind", "12", "--unwinding-assertions"]          # NARY = 10 slots + 1
+    TERMF = ["dnfAndMerge", "dnfAndImplies", "dnfAndImpliesNegation", "dnfAndCancelNegation", "dnfAndNew", "dnfAndCopy"]
+
+    def dn(name, entry, fns, ins, tx=1, ty=1, kind="obligation", extra=(), timeout=None):
+        J(name, D, entry, fns, ["v"] + ins, cls="B", kind=kind, native=True, checks=DCHK, cbmc=DUNW,
+          bound="<=3 atoms; any well-formed X with %d and Y with %d terms" % (tx, ty),
+          defs=["-DDN_TX=%d" % tx, "-DDN_TY=%d" % ty] + list(extra), timeout=timeout or (2400 if thorough else 120))
+    XY = ["xlen", "xlit", "ylen", "ylit"]
+    dn("dnf.constants_and_literals", "h_dnf_consts", ["dnfTrue", "dnfFalse", "dnfAtom", "dnfNotAtom", "dnfIsTrue", "dnfIsFalse", "dnfCopy"], ["at", "neg"])
+    dn("dnf.term.dnfAndMerge", "h_dnf_term_merge", TERMF, XY)
+    dn("dnf.term.dnfAndImplies", "h_dnf_term_implies", TERMF, XY)
+    dn("dnf.term.dnfAndCancelNegation", "h_dnf_term_cancel", TERMF, XY)
+    sizes = ((1, 1), (1, 2), (2, 1)) + (((2, 2), (3, 1), (1, 3)) if thorough else ())
+    for tx, ty in sizes:
+        dn("dnf.dnfOr.%dx%d" % (tx, ty), "h_dnf_or", ["dnfOr", "dnfOrMerge", "dnfIsTrue", "dnfIsFalse"] + TERMF, XY, tx, ty)
+        dn("dnf.dnfAnd.%dx%d" % (tx, ty), "h_dnf_and", ["dnfAnd", "dnfOrMerge", "dnfIsTrue", "dnfIsFalse"] + TERMF, XY, tx, ty)
+        dn("dnf.dnfImplies_dnfEqual.%dx%d" % (tx, ty), "h_dnf_implies", ["dnfImplies", "dnfEqual", "dnfAndImplies"], XY, tx, ty)
+    for tx in ((1, 2) if thorough else (1,)):
+        dn("dnf.dnfNot.%d" % tx, "h_dnf_not", ["dnfNot", "dnfAnd", "dnfAndNot", "dnfOrMerge"] + TERMF, XY[:2], tx, 1)
+    dn("dnf.witness.or_of_and_terms", "h_dnf_witness_or", ["dnfOr", "dnfAnd", "dnfAtom", "dnfNotAtom", "dnfOrMerge", "dnfAndCancelNegation"], [])
+    dn("dnf.witness.cancel_writes_past_term", "h_dnf_witness_cancel_overflow", ["dnfOr", "dnfAnd", "dnfOrMerge", "dnfAndCancelNegation"], [])
+    dn("canary.dnf.or", "h_dnf_or", ["dnfOr"], XY, 1, 1, kind="canary", extra=["-DCANARY_dnf_or"])
+    dn("canary.dnf.implies", "h_dnf_implies", ["dnfImplies"], XY, 1, 1, kind="canary", extra=["-DCANARY_dnf_implies"])
     return js
